@@ -167,14 +167,14 @@ def r2_change_state(ctx, f, rep):
         if truth is True:
             n_true += 1
             want = {(('field', q.SELF, 'state', None), state), (('field', q.SELF, 'incarnation', None), inc)}
-            rep.check(writes == want and p.ret == ('const', 'bool', 1, 'true'), 'C01-R2', b.nname,
+            rep.check(writes == want and p.ret in (('const', 'bool', 1, 'true'), ('call', cid)), 'C01-R2', b.nname,
                       'on can_change=true: state:=state, incarnation:=incarnation, returns true',
                       site=calls[0]['span'], construct='true-branch',
                       facts={'writes': sorted(show(pl, b) + ':=' + show(v, b) for pl, v in writes),
                              'ret': show(p.ret, b)})
         elif truth is False:
             n_false += 1
-            rep.check(not writes and p.ret == ('const', 'bool', 0, 'false'), 'C01-R2', b.nname,
+            rep.check(not writes and p.ret in (('const', 'bool', 0, 'false'), ('call', cid)), 'C01-R2', b.nname,
                       'on can_change=false: no write, returns false', site=calls[0]['span'],
                       construct='false-branch',
                       facts={'writes': sorted(show(pl, b) for pl, v in writes), 'ret': show(p.ret, b)})
